@@ -12,7 +12,7 @@ CONSTANTS MaxTok, Tokens, EmitOn
 VARIABLES s, n
 vars == <<s, n>>
 
-T9 == {StartM, EndM, Cross, <<NL>>, <<97>>, <<226>>, <<128>>, <<185>>, <<186>>}
+T9 == {StartM, EndM, Cross, <<NL>>, <<97>>, <<226>>, <<128>>, <<185>>, <<186>>, <<194, 186>>}
 T6 == {StartM, EndM, Cross, <<NL>>, <<97>>, <<128>>}
 
 Init == s = <<>> /\ n = 0
